@@ -236,6 +236,21 @@ def _sv(st, i):
     return F(False, v)
 
 
+def eig(a: Arr, left=False):
+    """eigen-decomposition as an uninterpreted kernel of the matrix: (w, [vl,] vr); entries may be non-finite only if the
+    matrix is (el_nan flags are unconstrained)"""
+    if not isinstance(a, Arr) or a.ndim != 2:
+        raise Unsupported("eig of a non-matrix")
+    t = termify(a)
+    n = a.shape[0]
+    w = mat_arr(fn("eig_w", Mat, Mat)(t), (n,), "complex")
+    vr = mat_arr(fn("eig_vr", Mat, Mat)(t), (n, n), "complex")
+    if left:
+        vl = mat_arr(fn("eig_vl", Mat, Mat)(t), (n, n), "complex")
+        return (w, vl, vr)
+    return (w, vr)
+
+
 def inv(a: Arr):
     t = termify(a)
     return mat_arr(fn("inv", Mat, Mat)(t), (a.shape[0], a.shape[1]), a.kind)
